@@ -194,6 +194,9 @@ class Evaluator:
             if op == '||':
                 return 1 if (self.ev(e['lhs']) or self.ev(e['rhs'])) else 0
             a = self.ev(e['lhs']); b = self.ev(e['rhs'])
+            if isinstance(a, float) or isinstance(b, float):
+                if op in ('+', '-', '*', '/'):
+                    return ieee_arith(op, float(a), float(b))
             if op == '<': return int(a < b)
             if op == '>': return int(a > b)
             if op == '<=': return int(a <= b)
@@ -264,6 +267,23 @@ class Evaluator:
         if k == 'Cast' and s.get('ck') == 'ToVoid' and 'cv' in (s.get('e') or {}):
             return None   # assert() compiled out
         raise Unsupported('stmt ' + k)
+
+
+def ieee_arith(op, a, b):
+    """IEEE 754 double arithmetic (Python raises on division by zero; C++ does not)"""
+    import math
+    if op == '+':
+        return a + b
+    if op == '-':
+        return a - b
+    if op == '*':
+        return a * b
+    if b != 0.0:
+        return a / b
+    if a != a or a == 0.0:
+        return float('nan')
+    neg = (math.copysign(1.0, a) < 0) != (math.copysign(1.0, b) < 0)
+    return float('-inf') if neg else float('inf')
 
 
 def wrap(v, ty):
@@ -595,7 +615,7 @@ class Machine(Evaluator):
     def ev(self, e):
         k = e['k']
         if k == 'Float':
-            return e['v']
+            return float(e['v']) if not isinstance(e['v'], str) else float('nan')
         if k == 'Nullptr':
             return 0
         if k in ('Call', 'MCall', 'OpCall', 'Ctor'):
